@@ -75,6 +75,50 @@ def cases():
             yield ("sl", v)
 
 
+def activity_then_sweep(rep):
+    """The conversion has to stay a function of its argument while the library is being USED in the same process: after resets of
+    an EZSP object (one after the other, and two in flight together -- a second caller joins a reset in progress), protocol-version
+    switches and a reconnect, the whole domain is converted again and every answer must be what it was."""
+    from mc.env import ezspenv
+    from mc.vloop import VLoop
+
+    first = {}
+    for fam, v in cases():
+        out, err = one(fam, v)
+        first[(fam, v)] = (None if out is None else int(out), err)
+    loop = VLoop().enter()
+    n = 0
+    try:
+        ezsp, gw = ezspenv.make_ezsp(loop, 8)
+
+        async def activity():
+            await ezsp.reset()
+            ezsp._switch_protocol_version(13)
+            import asyncio
+
+            gw.hold = False
+            r = await asyncio.gather(ezsp.reset(), ezsp.reset(), return_exceptions=True)
+            ezsp._switch_protocol_version(14)
+            await ezsp.reset()
+            return r
+
+        task = loop.create_task(activity())
+        loop.run_until_idle(horizon=loop.time() + 120.0)
+        if not task.done():
+            task.cancel()
+            loop.settle()
+        for fam, v in cases():
+            n += 1
+            out, err = one(fam, v)
+            now = (None if out is None else int(out), err)
+            if now != first[(fam, v)]:
+                rep.add_violation(f"C18|{fam}|after-activity", f"after resets (also two in flight together) and version switches of an EZSP object in the same process: {fam} {v:#x} -> "
+                                  f"{now[0]} ({now[1]}), before: {first[(fam, v)][0]}", {"world": "c18", "family": fam, "value": v, "activity": True})
+    finally:
+        loop.shutdown()
+    return n
+
+
 def main(tier: str) -> int:
     rep = report.Report("C18", tier, "exploration")
     n = 0
@@ -157,6 +201,7 @@ def main(tier: str) -> int:
             elif val != first.get((fam, v)):
                 rep.add_violation(f"C18|{fam}|order-dependent", f"families converted in order {o}: {fam} {v:#x} -> {val}, first pass gave {first.get((fam, v))}",
                                   {"world": "c18", "family": fam, "value": v, "order": list(o)})
+    n += activity_then_sweep(rep)
     if nonfail < 9:
         raise explore.InternalError(f"C18 vacuous: only {nonfail} legacy codes map to a specific unified status")
     rep.coverage = {
